@@ -63,8 +63,10 @@ fn long_string_value(token: &LuaSyntaxToken) -> Result<String, LuaParseError> {
         }
     }
 
-    // check string len is enough
-    if text.len() < i + equal_num + 2 {
+    // check string len is enough and the closing bracket is really there (an unterminated long
+    // string has no value; slicing it as if it were closed can panic)
+    let close = format!("]{}]", "=".repeat(equal_num));
+    if text.len() < i + equal_num + 2 || !text.ends_with(&close) {
         return Err(LuaParseError::new(
             LuaParseErrorKind::SyntaxError,
             &t!(
